@@ -10,6 +10,7 @@ EXPLANATION = (
     "evicts the entries of other live functions sharing the id); the fast-path key includes the code object; the source is "
     "re-read from disk at call time. Equality of source text is joblib's oracle for 'same code' and is not questioned."
     ' A fast-path entry is specific to the store it was validated against; call() checks the stored source before persisting a result next to it.'
+    " Whoever stores the source has wiped the function's directory first (C05.LABEL-AFTER-WIPE); the fingerprint describes the callable that was handed in (never an unwrapped inner function)."
 )
 ASSUMPTIONS = [
     "source text equality is the oracle for 'same code' (closures over differing values are outside the property's domain)",
